@@ -128,6 +128,7 @@ def run(ctx):
             okp = not any(e in esc for e in ban.exits()['return'])
             ctx.ob('R11.2', 'the end of an Object decrements users on every path', okp, ctx.where(b, blk.term.line),
                    'users -= 1 is conditional: a returned / taken object can stay counted as a user forever' if not okp else '', construct='users-dec-conditional:' + b.name)
+    users_guard_drop_unconditional(ctx, r, 'R11.2')
     # size inventory
     sz = []
     for b in managed_bodies(prog):
